@@ -159,7 +159,8 @@ pre_save = REG.unit(Unit(
 pre_save.ghost_havoc = lambda sx, body, st: None
 pre_save.local_types = {"delete_id": V.Opt(V.Bytes)}
 pre_save.post_locals = {"d_tag": V.Str}
-pre_save.obligation_props = [("sql:statement-inside-open-transaction", ["C07"]), ("post:stays-in-transaction", ["C07"])]
+pre_save.obligation_props = [("sql:statement-inside-open-transaction", ["C07"]), ("post:stays-in-transaction", ["C07"]),
+                             ("post:", ["C09"]), ("inv:", ["C09"]), ("exc:", ["C09", "C07"])]
 
 
 # ---- delete_event: its own transaction -----------------------------------------------------------------
@@ -231,7 +232,8 @@ process_tags = REG.unit(Unit(
 ))
 process_tags.ghost_havoc = lambda sx, body, st: [st.ghost.__setitem__(g, sx.fresh(st.ghost[g].ty, "g_" + g, st)) for g in ("rows", "n_statements", "n_deletes", "last_rowcount")]
 process_tags.local_types = {"tags": V.Set(V.Tuple(V.Str, V.Str))}
-process_tags.obligation_props = [("sql:statement-inside-open-transaction", ["C07"]), ("post:stays-in-transaction", ["C07"]), ("inv:in-txn", ["C07"])]
+process_tags.obligation_props = [("sql:statement-inside-open-transaction", ["C07"]), ("post:stays-in-transaction", ["C07"]), ("inv:in-txn", ["C07"]),
+                                 ("post:", ["C08"]), ("inv:", ["C08"]), ("exc:", ["C08", "C07"])]
 
 
 # ---- post_save (C09 for kinds 0/3 + delegates to process_tags) --------------------------------------------
@@ -256,7 +258,8 @@ post_save_contract.ghost_params = ("r0",)
 post_save = REG.unit(Unit(P, "DBStorage.post_save", post_save_contract, props=["C09", "C08", "C06", "C07"], ghost_init=ghost_db,
                           canaries=[("always-changed", "changed")]))
 post_save.obligation_props = [("sql:statement-inside-open-transaction", ["C07"]), ("post:stays-in-transaction", ["C07"]),
-                              ("post:unchanged-event-has-no-effects", ["C06"]), ("call:DBStorage.process_tags/pre:inside", ["C07"])]
+                              ("post:unchanged-event-has-no-effects", ["C06"]), ("call:DBStorage.process_tags/pre:inside", ["C07"]),
+                              ("post:", ["C09", "C08"]), ("exc:", ["C07"])]
 
 # ---- add_event ---------------------------------------------------------------------------------------------
 EV_ID = "bytes.fromhex(%s.id)" % CE
